@@ -60,6 +60,19 @@ def link(out, objs, flags):
     return out
 
 
+def build_vsim_race(outdir, proc=False, wraps=()):
+    """the simulator with the race detector (own implementation of the __tsan_* entry points) as a shared object linked with
+    -Bsymbolic: its internal template instantiations must never be replaced by instrumented copies from the executable"""
+    os.makedirs(outdir, exist_ok=True)
+    so = os.path.join(outdir, "libvsimrace.so")
+    cmd = [CXX, "-std=c++20", "-O1", "-g", "-fPIC", "-shared", "-DVSIM_RACE"] + (["-DVSIM_PROC"] if proc else []) + [os.path.join(VERIF, "sim/vsim.cpp"), "-o", so,
+           "-Wl,-Bsymbolic"] + ["-Wl,--wrap=" + w for w in wraps] + ["-ldl", "-lpthread"]
+    r = run(cmd)
+    if r.returncode != 0:
+        log("BUILD FAILED:", " ".join(cmd)); log(r.stderr[-4000:]); raise SystemExit(2)
+    return so
+
+
 _tfel_built = False
 
 
